@@ -194,10 +194,7 @@ func recsGrid() {
 
 func walkClass(es []ent) string {
 	hasBad, hasDel := false, false
-	for i, e := range es {
-		if i == 0 {
-			continue
-		}
+	for _, e := range es {
 		if !e.valid {
 			hasBad = true
 		} else if e.deleted {
@@ -334,7 +331,9 @@ func randomCursors(r *hx.Rand, k int) {
 }
 
 func generate() {
-	r := run.R
+	// own stream, derived from the seed through one mixed draw: hx.NewRand(seed) and hx.NewRand(seed+1) are the
+	// same sequence shifted by one, and run.Op also draws from run.R for its samples
+	r := hx.NewRand(run.R.U64() ^ 0xC06C06C06)
 	thorough := run.Thorough()
 
 	// the recorded finding first (also in corpus/C06): an unparsable look-ahead element has no cursor.
